@@ -145,7 +145,7 @@ def run(ck, tier):
     paths = build("asan")
     ck.tier = tier
     sc = getattr(ck, "scale", 1.0)
-    n = int((80 if tier == "quick" else 1500) * sc)
+    n = int((120 if tier == "quick" else 1500) * sc)
     classes = ["width", "width", "names_long", "names_special", "many_rows", "many_lines", "gapfree", "mixedcase", "bulk"]
     jobs = [(i, None) for i in range(n)]
     # every width boundary at least once per run
